@@ -52,17 +52,24 @@ theorem src_to_slot_size (n : Nat) : to_slot_size (n : Int) = (Lay.slot n : Int)
 
 /-- `_align(o, a)` for an alignment that is a power of two is the model's `alignUp o a` -/
 theorem src_align (o k : Nat) : align (o : Int) ((2 ^ k : Nat) : Int) = (Alloc.alignUp o (2 ^ k) : Int) := by
-  unfold align
-  simp only [Id.run, pure]
   have hp : 0 < 2 ^ k := Nat.pos_of_ne_zero (by simp)
   have e : ((o : Int) + ((2 ^ k : Nat) : Int) - 1) = ((o + 2 ^ k - 1 : Nat) : Int) := by
     push_cast [Nat.cast_sub (show 1 ≤ o + 2 ^ k by omega)]; omega
-  rw [e]
-  have := land_neg_pow (o + 2 ^ k - 1) k
-  push_cast at this ⊢
-  rw [this]
-  unfold Alloc.alignUp
-  simp only [Nat.and_two_pow_sub_one_eq_mod]
+  first
+  | (unfold align
+     simp only [Id.run, pure]
+     rw [e]
+     have := land_neg_pow (o + 2 ^ k - 1) k
+     push_cast at this ⊢
+     rw [this]
+     unfold Alloc.alignUp
+     simp only [Nat.and_two_pow_sub_one_eq_mod])
+  | (-- the division form `(offset + alignment - 1) // alignment * alignment`
+     unfold align
+     simp only [Id.run, pure]
+     rw [e, Alloc.alignUp_pow2]
+     push_cast
+     rfl)
 
 /-- what the source's `_align` computes, stated outright: for an alignment that is a power of two it returns the LEAST multiple of the
 alignment that is not below the offset (a multiple of the alignment, at least the offset, below every other such multiple) -/
